@@ -286,6 +286,9 @@ type Prop[C any] struct {
 	Name  string // test name, used for the stats file
 	Gen   func(*rapid.T) C
 	Check func(C, *Stats) error // must record the case in Stats itself
+	// Pending: record the case on disk before executing it, so that a crash of the whole process (a panic in a
+	// goroutine of the library or of generated code cannot be recovered) still leaves a replayable case.
+	Pending bool
 }
 
 // RunRapid drives p with rapid; the number of checks and the seed come from the
@@ -296,7 +299,13 @@ func RunRapid[C any](t *testing.T, p Prop[C], statsName string) {
 	defer func() { st.Flush(completed) }()
 	rapid.Check(t, func(rt *rapid.T) {
 		c := p.Gen(rt)
+		if p.Pending {
+			SavePending(p.ID, p.Name, c)
+		}
 		err := Guard(func() error { return p.Check(c, st) })
+		if p.Pending {
+			ClearPending()
+		}
 		if err != nil {
 			SaveFailing(p.ID, p.Name, c, err.Error())
 			msg := err.Error()
@@ -322,7 +331,13 @@ func RunCases[C any](t *testing.T, p Prop[C], statsName string, exhaustive bool,
 		if !ok {
 			break
 		}
+		if p.Pending {
+			SavePending(p.ID, p.Name, c)
+		}
 		err := Guard(func() error { return p.Check(c, st) })
+		if p.Pending {
+			ClearPending()
+		}
 		if err != nil {
 			SaveFailing(p.ID, p.Name, c, err.Error())
 			t.Fatalf("%s violated: %v", p.ID, err)
